@@ -35,6 +35,12 @@ class _Rec:
         for n in names:
             if n in loc:
                 self.obs.append((q, "param", n, loc[n]))
+    def tick(self):
+        """a counter the programs use to pick call-dependent values (so two calls with equal arguments can still
+        return / yield values of different types)"""
+        self.n = getattr(self, "n", 0) + 1
+        return self.n
+
     def act(self, kind, value=None):
         fr = sys._getframe(1)
         self.pending.setdefault(id(fr), []).append((kind, value))
@@ -73,6 +79,8 @@ class ProgGen:
         self.coros = []
 
     def v(self):
+        if self.r.random() < 0.2:
+            return f"V[R.tick() % {self.nvals}]"          # differs from call to call
         return f"V[{self.r.randrange(self.nvals)}]"
 
     def w(self, s=""):
